@@ -852,7 +852,8 @@ def main(chk):
         "harness dumptables (go/parser over y.go) comparing yyExca yyAct yyPact yyPgo yyR1 yyR2 yyChk yyDef yyTok1-3 yyToknames and constants",
         "goyacc's driver loop yyParse: that it executes the tables as the operator-precedence machine is validated by the correspondence, not proved",
         "harness parse (ast.Program.String()), the two renderers of tools/c02.py (cross-checked by the string equality itself), printer Prec/PanExpr.show",
-        "the lexer: cases are spelled with blanks around infix operators so that tokenisation (C16) does not interfere"]
+        "the lexer: the token-list cases are spelled with blanks around infix operators so that tokenisation (C16) does not interfere; the `spacing` family "
+        "(every operator pair over names, int literals and argument variables, written with and without blanks) compares the two spellings"]
     chk.assumptions += [
         "operands inside call arguments / literals / chain arguments are separate expression contexts; the tables lemma covers them (every state), the enumeration does not",
         "`else` directly follows the condition of its `if`; the `if` after a jump statement is the statement-level jump-if whose condition extends to the end of the statement",
